@@ -103,6 +103,47 @@ def shapeDFlat (o : Opts) (c : Nat) : List (FI × PVal) → List (String × Out)
       (f.name, if serAppliesV o.ser v then serAt o.ser (.field c f) (embed v) else embed v) :: shapeDFlat o c r
     else shapeDFlat o c r
 
+/-! ### with the substituting serializer: "the value_serializer applied to every value" — the value in the result
+    is what the serializer returned; what it returned for a *field* value is converted like a field value, what it
+    returned for a member / dict key / dict value is stored -/
+
+mutual
+def shapeS (o : Opts) (s : Subst) (ctx : Ctx) : PVal → Out
+  | .atom a =>
+    (match ctx with
+     | .field c f => if s.target.hits (some f.name) (.atom a) then shapeD o.noSer (.field c f) s.repl else .atom a
+     | _ => if s.target.hits none (.atom a) then embed s.repl else .atom a)
+  | .inst c h fs =>
+    (match ctx with
+     | .field c' f =>
+       if s.target.hits (some f.name) (.inst c h fs) then shapeD o.noSer (.field c' f) s.repl
+       else .record o.df (shapeSFields o s c fs)
+     | _ => .record o.df (shapeSFields o s c fs))
+  | .coll k xs =>
+    (match ctx with
+     | .field c' f =>
+       if s.target.hits (some f.name) (.coll k xs) then shapeD o.noSer (.field c' f) s.repl
+       else .coll false (targetKind o ctx k) (shapeSItems o s (memberCtx ctx) xs)
+     | _ => .coll false (targetKind o ctx k) (shapeSItems o s (memberCtx ctx) xs))
+  | .dict k ps =>
+    (match ctx with
+     | .field c' f =>
+       if s.target.hits (some f.name) (.dict k ps) then shapeD o.noSer (.field c' f) s.repl
+       else .dict false o.df (shapeSPairs o s ps)
+     | _ => .dict false o.df (shapeSPairs o s ps))
+def shapeSFields (o : Opts) (s : Subst) (c : Nat) : List (FI × PVal) → List (String × Out)
+  | [] => []
+  | (f, v) :: r =>
+    if passes o.filter f v then (f.name, shapeS o s (.field c f) v) :: shapeSFields o s c r
+    else shapeSFields o s c r
+def shapeSItems (o : Opts) (s : Subst) (ctx : Ctx) : List PVal → List Out
+  | [] => []
+  | v :: r => shapeS o s ctx v :: shapeSItems o s ctx r
+def shapeSPairs (o : Opts) (s : Subst) : List (PVal × PVal) → List (Out × Out)
+  | [] => []
+  | (k, v) :: r => (shapeS o s .key k, shapeS o s .member v) :: shapeSPairs o s r
+end
+
 mutual
 /-- astuple, recurse=True: the filter-passing values positionally -/
 def shapeTFields (o : Opts) : List (FI × PVal) → List Out
@@ -134,8 +175,14 @@ def shape (c : Case) : Option Out :=
   | .inst cls _ fs =>
     let o := c.opts
     match c.api, c.recurse with
-    | .asdict, true => some (.record o.df (shapeDFields o cls fs))
-    | .asdict, false => some (.record o.df (shapeDFlat o cls fs))
+    | .asdict, true =>
+      (match c.activeSubst with
+       | some s => some (.record o.df (shapeSFields o s cls fs))
+       | none => some (.record o.df (shapeDFields o cls fs)))
+    | .asdict, false =>
+      (match c.activeSubst with
+       | some s => some (.record o.df (flatS o s fs))
+       | none => some (.record o.df (shapeDFlat o cls fs)))
     | .astuple, true => some (tfOut o.tf (shapeTFields o fs))
     | .astuple, false => some (tfOut o.tf (flatT o.filter fs))
   | _ => none
@@ -237,15 +284,70 @@ def siteOK (c : Case) (f : Fault) : Bool :=
   | .dictFactory => c.api == .asdict && !c.ng
   | .tupleFactory => c.api == .astuple && !c.ng
 
+mutual
+/-- converting the replacement as a field value hands nothing to the serializer that it would replace again
+    (else the real call recurses without end) -/
+def replSafeF (t : Target) : PVal → Bool
+  | .atom _ => true
+  | .inst _ _ fs => replSafeFields t fs
+  | .coll _ xs => replSafeL t xs
+  | .dict _ ps => replSafeP t ps
+def replSafeM (t : Target) : PVal → Bool
+  | .atom a => !t.hits none (.atom a)
+  | .inst _ _ fs => replSafeFields t fs
+  | .coll _ xs => replSafeL t xs
+  | .dict _ ps => replSafeP t ps
+def replSafeFields (t : Target) : List (FI × PVal) → Bool
+  | [] => true
+  | (f, v) :: r =>
+    (match t with
+     | .field n => n != f.name
+     | .all => false
+     | .scalars => !isScalarV' v
+     | .atomIs a => (match v with
+       | .atom b => a != b
+       | _ => true)) && replSafeF t v && replSafeFields t r
+def replSafeL (t : Target) : List PVal → Bool
+  | [] => true
+  | v :: r => replSafeM t v && replSafeL t r
+def replSafeP (t : Target) : List (PVal × PVal) → Bool
+  | [] => true
+  | (k, v) :: r => replSafeM t k && replSafeM t v && replSafeP t r
+end
+
+mutual
+def noHashableInst : PVal → Bool
+  | .atom _ => true
+  | .inst _ h fs => h.isNone && noHashableInstF fs
+  | .coll _ xs => noHashableInstL xs
+  | .dict _ ps => noHashableInstP ps
+def noHashableInstF : List (FI × PVal) → Bool
+  | [] => true
+  | (_, v) :: r => noHashableInst v && noHashableInstF r
+def noHashableInstL : List PVal → Bool
+  | [] => true
+  | v :: r => noHashableInst v && noHashableInstL r
+def noHashableInstP : List (PVal × PVal) → Bool
+  | [] => true
+  | (k, v) :: r => noHashableInst k && noHashableInst v && noHashableInstP r
+end
+
 /-- only the property's own preconditions: the tree exists as a Python value, the callback the fault sits in
     is passed.  (Generator invariant, not a precondition: faults are injected only into calls that complete
     without them, so the injected exception is the only one in play and "the k-th call" does not depend on the
-    order of evaluation; see `fires`.) -/
+    order of evaluation; see `fires`.)  With the substituting serializer: the replacement is a Python value, its
+    conversion terminates (`replSafeF`), it holds no hashable instance (one object returned twice into one set
+    would need object identity in `pyEq`), and no fault is injected. -/
 def wf (c : Case) : Bool :=
   wfV c.value &&
-  match c.fault with
-  | none => true
-  | some f => siteOK c f
+  (match c.fault with
+   | none => true
+   | some f => siteOK c f) &&
+  (match c.ser, c.subst with
+   | .subst, some s =>
+     c.api == .asdict && c.fault.isNone && wfV s.repl && replSafeF s.target s.repl && noHashableInst s.repl
+   | .subst, none => false
+   | _, _ => true)
 
 /-! ## Known deviations: none (K13a / K13b / K13c were repaired in attrs; the former witnesses are
     regression cases in `corpus/C13`, the old behaviour is kept in `Proofs/C13Old.lean`) -/
